@@ -529,6 +529,8 @@ class _Sub(Elaboratable):
             rdy = d.inp[f"rdy:{n}"] if b.get("rdy") else C(1)
             if b.get("rdep"):
                 rdy = rdy & d.obj[b["rdep"]].run
+            if b.get("rdy_parent"):  # a nested body whose readiness uses the run signal of the body it is defined in
+                rdy = rdy & d.obj[an.parent[n]].run
             if b["kind"] == "M":
                 kw: dict[str, Any] = {}
                 if b.get("nonex"):
@@ -768,6 +770,8 @@ class Oracle:
         r = r and an.cond(an.bctx[n], ob.val)
         if b.get("rdep"):
             r = r and bool(ob.run[b["rdep"]])
+        if b.get("rdy_parent"):
+            r = r and bool(ob.run[an.parent[n]])
         return r
 
     def enabled(self, t: str, ob: Obs) -> tuple[bool, str]:
@@ -1379,6 +1383,61 @@ def gen_conflict_graph_spec(draw, *, sched="eager", max_trans=6, prios=True, sam
             spec["rels"].pop()
     spec["nvals"] = None
     spec["vals"] = []
+    return spec
+
+
+@st.composite
+def gen_deep_nesting_spec(draw, sched="eager"):
+    """Three levels of body nesting with callers on every level: an outer body O (transaction or method), a method M
+    defined inside O and a method I defined inside M; I's readiness may use M's run signal (the documented rule:
+    readiness may depend on the run of bodies declared earlier by nesting).  Callers of I and of M conflict through
+    shared exclusive methods in drawn combinations, and the transactions are created in a drawn order."""
+
+    def M(name, **kw):
+        b = dict(kind="M", name=name, mod=0, rdy=draw(st.booleans()), nonex=False, comb=None, iw=0, ow=0, val=None,
+                 single=False, rdep=None, stmts=[])
+        b.update(kw)
+        return b
+
+    def call(c, en=False):
+        return dict(t="call", callee=c, en=en, arg=None, hops=0, via_methods=False)
+
+    def maybe_if(stmt):
+        return dict(t="if", alts=[[stmt]], **{"else": False}) if draw(st.integers(0, 3)) == 0 else stmt
+
+    nres = draw(st.integers(1, 2))
+    res = [M(f"s{k}") for k in range(nres)]
+    inner = M("i0", rdy_parent=draw(st.integers(0, 3)) != 0)
+    mid = M("m0", stmts=[maybe_if(dict(t="nt", body=inner))])
+    outer_is_t = draw(st.booleans())
+    if outer_is_t:
+        outer = dict(kind="T", name="o0", mod=0, rdy=draw(st.booleans()), stmts=[maybe_if(dict(t="nt", body=mid))])
+    else:
+        outer = M("o0", stmts=[maybe_if(dict(t="nt", body=mid))])
+    trans = []
+    if not outer_is_t:
+        trans.append(dict(kind="T", name="tz", mod=0, rdy=True, stmts=[call("o0")]))
+    ny = draw(st.integers(1, 3))
+    for k in range(ny):
+        trans.append(dict(kind="T", name=f"ty{k}", mod=0, rdy=True, stmts=[call("m0", en=draw(st.integers(0, 3)) == 0)]))
+    nx = draw(st.integers(1, 2))
+    for k in range(nx):
+        trans.append(dict(kind="T", name=f"tx{k}", mod=0, rdy=True, stmts=[call("i0", en=draw(st.integers(0, 3)) == 0)]))
+    # shared exclusive resources: each is used by a drawn subset of the callers (conflicts between the levels)
+    users = [t for t in trans if t["name"] != "tz"]
+    for r in res:
+        for t in users:
+            if draw(st.integers(0, 2)) == 0:
+                t["stmts"].append(call(r["name"]))
+    order = draw(st.permutations(list(range(len(trans)))))
+    bodies = res + ([outer] if not outer_is_t else []) + [trans[i] for i in order]
+    if outer_is_t:
+        bodies.insert(nres + draw(st.integers(0, len(trans))), outer)
+    spec = dict(sched=sched, bodies=bodies, rels=[], tops=[])
+    repair(spec)
+    an = analyze(spec)
+    spec["nvals"] = None if an.space() <= 512 else 256
+    spec["vals"] = [] if spec["nvals"] is None else [draw(st.integers(0, an.space() - 1)) for _ in range(256)]
     return spec
 
 
